@@ -369,6 +369,47 @@ def run_batch(prop, tier='quick', batch_seed=0, budget_s=None, nruns=None,
                       'fresh process:\n{}'.format(v['fingerprint'], out2[-800:]))
                 if exit_code == EXIT_OK:
                     exit_code = EXIT_HARNESS
+    if exit_code == EXIT_HARNESS and len(new_viol) > max_report:
+        # None of the first fingerprints replays on its own: the failures
+        # depend on what EARLIER runs left behind in the worker process
+        # (module-level state in the library under test).  Look through the
+        # remaining fingerprints for one whose run carries its whole history
+        # itself -- an honest VIOLATION with a replay file beats exit 2.
+        t_tri = time.time()
+        budget_tri = float(os.environ.get('ODLSIM_TRIAGE_BUDGET', '240'))
+        tried = 0
+        for v in new_viol[max_report:]:
+            if time.time() - t_tri > budget_tri:
+                break
+            tried += 1
+            orig_len = len(v['plan'].get('ops', []))
+            path = write_replay(prop, v['plan'], v['fingerprint'],
+                                v['message'], v['seed'], tier, orig_len)
+            ok, out = _replay_fresh(prop, path)
+            if not ok:
+                try:
+                    os.remove(path)
+                except OSError:
+                    pass
+                continue
+            try:
+                small, execs = minimise(prop, v['plan'], v['fingerprint'])
+                path2 = write_replay(prop, small, v['fingerprint'],
+                                     v['message'], v['seed'], tier, orig_len)
+                ok2, _ = _replay_fresh(prop, path2)
+                if ok2:
+                    path = path2
+            except Exception:
+                pass
+            print('VIOLATION property={} replay={}'.format(prop, path))
+            print('  fingerprint: ' + v['fingerprint'])
+            print('  ' + v['message'][:400])
+            print('  (seed {}; {} further fingerprints did not replay on '
+                  'their own: they depend on state earlier runs left in the '
+                  'worker process)'.format(v['seed'], tried - 1 + max_report))
+            replay_paths.append(path)
+            exit_code = EXIT_VIOLATION
+            break
     if len(new_viol) > max_report:
         print('... and {} more distinct fingerprints: {}'.format(
             len(new_viol) - max_report,
